@@ -361,10 +361,21 @@ pub fn gen_request(o: &GenOpts) -> ReqSpec {
     }
     let body = if o.allow_body && t::chance(1, 2) {
         let len = t::len_near(&[1, 512, 900, 1024, 1100, 2048], o.max_body);
-        let mut b: Vec<u8> = match t::weighted(&[3, 2, 2]) {
+        let mut b: Vec<u8> = match t::weighted(&[3, 2, 2, 2]) {
             0 => (0..len).map(|i| b"abcdefghij"[i % 10]).collect(),
             1 => (0..len).map(|_| t::draw(256) as u8).collect(),
-            _ => (0..len).map(|i| if i % 7 == 3 { 0 } else { b'A' + (i % 26) as u8 }).collect(),
+            2 => (0..len).map(|i| if i % 7 == 3 { 0 } else { b'A' + (i % 26) as u8 }).collect(),
+            _ => {
+                // a body that looks like the end of a head / like a whole request, behind a NUL byte or not
+                // (what a stale buffer or a mis-attributed byte would turn into a request of its own)
+                let mut v: Vec<u8> = (0..len.min(40)).map(|i| b"0123456789"[i % 10]).collect();
+                if t::chance(1, 2) {
+                    v.push(0);
+                }
+                v.extend_from_slice(t::pick(&[&b"\r\n\r\n"[..], b"\r\n\r\nGET /s/fixed HTTP/1.1\r\nx-marker: smuggled\r\n\r\n", b"\n\nPOST /p/evil HTTP/1.1\r\nContent-Length: 3\r\n\r\nabc", b"\r\n\r\n\0\r\n\r\n"]));
+                v.extend((0..t::draw(30)).map(|i| b'a' + (i % 26) as u8));
+                v
+            }
         };
         if !b.is_empty() {
             if o.allow_leading_nul && t::chance(1, 8) {
